@@ -94,6 +94,12 @@ pub fn plans(tier: Tier, inst: &Inst, have_ship: bool) -> Vec<Plan> {
             })
             .collect();
         v.extend(extra);
+        if let (Some(s), Some(first)) = (inst.m3l_stale, v.first().cloned()) {
+            let mut q = first;
+            q.cfg.model = rt::Model::M3L;
+            q.cfg.s = s;
+            v.push(q);
+        }
     }
     v
 }
